@@ -7,7 +7,8 @@
 # The scratch worktrees and their build output are removed at the end.
 J=3
 if [ "$1" = "-j" ]; then J=$2; shift 2; fi
-cd /verif || exit 2
+cd "$(dirname "$0")/.." || exit 2
+VD=$(pwd)
 PATS=("$@"); [ ${#PATS[@]} -eq 0 ] && PATS=("C*")
 LIST=()
 for pat in "${PATS[@]}"; do for d in seeded/$pat; do [ -f "$d/patch.diff" ] && LIST+=("$(basename $d)"); done; done
@@ -21,7 +22,7 @@ worker() {
     n=$((n+1)); [ $((n % J)) -eq $((k % J)) ] || continue
     local pid=${id%%-*}
     local chk=$(python3 -c "import json,sys; m=json.load(open('seeded/$id/meta.json')); d=[c['check'] for c in m.get('checks_run',[]) if c.get('detected') and c.get('tier')=='quick']; print(d[0] if d else '$pid')")
-    ( cd "$WT" && git checkout -q -- . && git apply /verif/seeded/$id/patch.diff ) || { echo "$id: patch does not apply" >> $OUT/res.$k; continue; }
+    ( cd "$WT" && git checkout -q -- . && git apply "$VD/seeded/$id/patch.diff" ) || { echo "$id: patch does not apply" >> $OUT/res.$k; continue; }
     local t0=$(date +%s)
     VERIF_REPO=$WT CARGO_BUILD_JOBS=$((16 / J)) ./check $chk quick > $OUT/$id.log 2>&1; local rc=$?
     local sig=$(grep -m1 -A1 '^VIOLATION' $OUT/$id.log | tr '\n' ' ' | cut -c1-160)
